@@ -87,7 +87,9 @@ def gen_child_steps(R):
     for _ in range(R.int(1, 3)):
         k = R.weighted([(5, "sleep"), (1, "raise"), (2, "return"), (1, "cancel_self"), (1, "executor")])
         if k == "sleep":
-            steps.append(["sleep", R.choice([1.0, 2.0, 4.0])])
+            # never a whole number of seconds, also when added up: a child never wakes in the same instant as its
+            # parent (which of two runs goes first within one instant is decided by the loop, not by pyscript)
+            steps.append(["sleep", R.choice([0.7, 1.7, 2.7])])
         elif k == "raise":
             steps.append(["raise"])
             break
